@@ -89,10 +89,10 @@ def check(ctx):
                                 why = 'go movetime %d leaves a time budget of %s' % (mt, tim)
                             elif not inf and not d and not mt and tl and not re.fullmatch(r'(TimeManager::)?calculateTime\(limits,_?position\.color\(\),_?position\.ply_count\(\)\)', tim):
                                 why = 'a clock limit leaves a time budget of %s' % tim
-                        roots = [e for e in eff if e.startswith('_root_moves.insert(')]
+                        roots = [e for e in eff if re.match(r'_root_moves\.(insert|assign)\(|\(_root_moves=', e)]
                         if why is None and sm and (len(roots) != 1 or 'limits.searchmoves' not in roots[0] or 'generate_moves' in roots[0]):
                             why = 'with searchmoves the root list is filled by %s' % roots
-                        if why is None and not sm and (len(roots) != 1 or 'generate_moves(' not in roots[0]):
+                        if why is None and not sm and (len(roots) != 1 or 'generate_moves(' not in roots[0] or 'limits.searchmoves' in roots[0]):
                             why = 'without searchmoves the root list is filled by %s' % roots
                         if why and bad is None:
                             bad = 'infinite=%d depth=%d movetime=%d clock=%d searchmoves=%d: %s' % (inf, d, mt, tl, sm, why)
@@ -169,47 +169,7 @@ def check(ctx):
            site=it.loc(tests[0]) if tests else it.loc())
 
     # ---- R3 searchmoves ---------------------------------------------------------------------
-    inserts = [n for n, cfid, nm in ctor.calls() if short(nm) == 'insert' and 'vector' in nm]
-    ctx.floor('C09.R3.root-inserts', len(inserts), 2, 'insertions into the root list')
-    seen_sm = seen_gen = False
-    for ins in inserts:
-        gf = guard_facts(ctor, ins)
-        sm = None
-        for cond, truth in gf:
-            cc = strip_casts(cond)
-            if cc['k'] == 'BinaryOperator' and cc.get('op') in ('>', '!='):
-                a, b = [strip_casts(x) for x in kids(cc)]
-                if short(a.get('ref', {}).get('n', '')) == 'searchmovesnum' and const_of(b) == 0:
-                    sm = truth
-        srcs = set()
-        for a in kids(ins)[1:]:
-            for x in walk(a):
-                r = x.get('ref')
-                if r and r['k'] == 'Local':
-                    for d in ctor.all_nodes():
-                        if d['k'] == 'VarDecl' and d.get('id') == r['id'] and kids(d):
-                            for y in walk(kids(d)[0]):
-                                if y.get('ref', {}).get('n') in ('engine::Limits::searchmoves', 'engine::MOVE_LIST'):
-                                    srcs.add(short(y['ref']['n']))
-                                if y.get('callee', {}).get('n') == 'engine::generate_moves':
-                                    srcs.add('generate_moves')
-        if sm is True:
-            seen_sm = True
-            ok = srcs == {'searchmoves'}
-            ctx.ob('C09.R3.root-from-searchmoves', 'Search::Search:searchmoves', ok,
-                   'with searchmoves given the root list is filled from Limits::searchmoves only (sources: %s)' % sorted(srcs),
-                   site=ctor.loc(ins))
-        elif sm is False:
-            seen_gen = True
-            ok = 'generate_moves' in srcs and 'searchmoves' not in srcs
-            ctx.ob('C09.R3.root-from-generator', 'Search::Search:generated', ok,
-                   'without searchmoves the root list is the generated legal list (sources: %s)' % sorted(srcs),
-                   site=ctor.loc(ins))
-        else:
-            ctx.ob('C09.R3.root-fill-guard', 'Search::Search', False,
-                   'insertion into the root list is not governed by searchmovesnum > 0', site=ctor.loc(ins))
-    ctx.ob('C09.R3.both-arms', 'Search::Search', seen_sm and seen_gen,
-           'both the searchmoves arm and the generated arm exist', site=ctor.loc())
+    # how the root list is filled (from searchmoves when given, else from the generator) is part of C09.R1.limits-table
     # who else writes _root_moves
     bad = []
     for f, n, k in p.field_accesses('engine::Search', '_root_moves'):
